@@ -296,7 +296,7 @@ func TestVerifC05E2E(t *testing.T) {
 	if VThorough() {
 		n = 2500
 	}
-	for i := 0; i < n; i++ {
+	for i := 0; i < n && !c05Hung.Load(); i++ {
 		c := c05GenE2E(r, stats)
 		up, cl := c05RunE2E(t, cp, ud, c)
 		if strings.HasPrefix(up, "harness:") {
